@@ -471,6 +471,22 @@ static void run_job(const Job &jb, const std::map<std::string, MeshDef> &meshes)
             std::string res = do_write(m, jb.fmt, jb.tt, jb.failat, jb.failmode, out, good);
             g_sh->phase = 2;
             j.kv("res", res); j.kv("good", good);
+            if (jb.failat < 0 && good) {
+                // what the library's own type queries say about the file just written
+                if (jb.fmt == "ovmb") {
+                    FailIn buf(out, (size_t)-1, 0);
+                    std::istream is(&buf);
+                    auto rd = IO::make_ovmb_reader(is, IO::ReadOptions(), IO::g_default_property_codecs);
+                    auto tt = rd->topo_type();
+                    j.kv("rtt", tt.has_value() ? (long long)static_cast<uint8_t>(*tt) : -1LL);
+                } else {
+                    char path[64]; snprintf(path, sizeof path, "/tmp/io_exec.%d.ovm", (int)getpid());
+                    { std::ofstream f(path, std::ios::binary); f.write((const char *)out.data(), (std::streamsize)out.size()); }
+                    IO::FileManager fm; fm.setVerbosityLevel(0);
+                    j.kv("ishex", fm.isHexahedralMesh(path)); j.kv("istet", fm.isTetrahedralMesh(path));
+                    unlink(path);
+                }
+            }
             j.key("bytes"); put_bytes(j, out);
             j.end_obj();
             return 0;
